@@ -945,10 +945,11 @@ pub fn fixed_cases(per_ep: u64) -> Vec<SweepCase> {
         }
         for i in 0..per_ep {
             let n = 3 + (i % 4) as usize;
-            let picks: Vec<u64> = (0..n as u64).map(|k| mix(i * 7919 + 13, k)).collect();
+            let me = unlisted.iter().position(|e| e.contract == ep.contract && e.name == ep.name).unwrap_or(0) as u64;
+            let picks: Vec<u64> = (0..n as u64).map(|k| mix(i * 7919 + 13 + 104_729 * me, k)).collect();
             let idx = unlisted.iter().position(|e| e.contract == ep.contract).unwrap_or(0) as u64;
-            // (s0 chosen so that the sequence explores this entry point's contract)
-            let s0 = idx + unlisted.len() as u64 * mix(i, 77).wrapping_rem(1 << 40);
+            // (s0 chosen so that the sequence explores this entry point's contract; different for every new entry point)
+            let s0 = idx + unlisted.len() as u64 * mix(i, 77 + me).wrapping_rem(1 << 40);
             v.push(feature_sequence(&unlisted, &eps, s0, &picks));
         }
     }
